@@ -305,6 +305,9 @@ def check_invariants(ctx, step, circ, m, what):
         if sp is None:
             continue
         for (t, r) in gq.qregs(sp):
+            if (t, r) not in per:
+                ctx.violate("J4_unwrapped_sequence", step, f"sequence(unwrapped=True) yields {sp} on register {t}{r}, which the circuit does not have", sig)
+                return False
             per[(t, r)].append(sp[1] if sp[0] == "g1" else (sp[0], sp[1]))
     for k in per:
         exp = [x if isinstance(x, str) else (x[0], x[1]) for x in flat[k]]
